@@ -1006,8 +1006,26 @@ const char *__asan_default_options(void)
 			"allocator_may_return_null=1:detect_stack_use_after_return=0";
 }
 
+static const vx_harness *g_harness;
+static int g_variant_no;
+
+// end of an execution, callable from any controlled thread (used when thread 0 has left through
+// dispatch_main()): run the oracle and report
+void vx_end(void)
+{
+	g_focus = 0;
+	g_active = 0;
+	_dispatch_verif_atomic_hook = NULL;
+	_dispatch_verif_spin_hook = NULL;
+	char msg[1024]; msg[0] = 0;
+	if (g_harness->check && g_harness->check(g_variant_no, g_log, msg, sizeof msg)) vx_finish(V_ORACLE, "%s", msg);
+	if (g_res->expect_crash) vx_finish(V_ORACLE, "execution completed although a trap was expected");
+	vx_finish(V_OK, NULL);
+}
+
 void vx_child_main(const vx_harness *h, int variant, vx_result *res, uint64_t stepcap)
 {
+	g_harness = h; g_variant_no = variant;
 	g_res = res;
 	g_log = &res->log;
 	g_log->n = 0;
@@ -1021,16 +1039,10 @@ void vx_child_main(const vx_harness *h, int variant, vx_result *res, uint64_t st
 	vx_thr *t0 = new_thread();
 	vx_me = t0;
 	t0->pth = pthread_self();
+	pthread_setspecific(g_key, t0);   // so that dispatch_main()'s pthread_exit of thread 0 is seen as its end
 	g_active = 1;
 	_dispatch_verif_atomic_hook = atomic_hook;
 	_dispatch_verif_spin_hook = spin_hook;
 	h->run(variant);
-	g_focus = 0;
-	g_active = 0;
-	_dispatch_verif_atomic_hook = NULL;
-	_dispatch_verif_spin_hook = NULL;
-	char msg[1024]; msg[0] = 0;
-	if (h->check && h->check(variant, g_log, msg, sizeof msg)) vx_finish(V_ORACLE, "%s", msg);
-	if (res->expect_crash) vx_finish(V_ORACLE, "execution completed although a trap was expected");
-	vx_finish(V_OK, NULL);
+	vx_end();
 }
